@@ -32,10 +32,11 @@ type fault struct {
 
 type shape struct {
 	Stages   int     `json:"stages"`
-	FanOut   int     `json:"fan_out_stage"`               // stage returning 2 outputs (-1 none)
-	Outs     []int   `json:"outputs_per_stage,omitempty"` // when set: number of outputs of every stage (batch Publish calls on consecutive topics)
-	DupStage int     `json:"dup_handler_stage"`           // stage with two handlers on its topic (-1 none)
-	FanIn    bool    `json:"fan_in"`                      // two first stages (t0a, t0b) publishing into t1
+	FanOut   int     `json:"fan_out_stage"`                   // stage returning 2 outputs (-1 none)
+	Outs     []int   `json:"outputs_per_stage,omitempty"`     // when set: number of outputs of every stage (batch Publish calls on consecutive topics)
+	Modes    []int   `json:"output_mode_per_stage,omitempty"` // 0 fresh messages; 1 fresh messages carrying the consumed message's context; 2 the handler returns the consumed message itself (passthrough)
+	DupStage int     `json:"dup_handler_stage"`               // stage with two handlers on its topic (-1 none)
+	FanIn    bool    `json:"fan_in"`                          // two first stages (t0a, t0b) publishing into t1
 	Msgs     int     `json:"messages"`
 	Cfg      int     `json:"config"`
 	Faults   []fault `json:"faults"`
@@ -51,6 +52,13 @@ func (sh shape) outs(stage int) int {
 		return 2
 	}
 	return 1
+}
+
+func (sh shape) mode(stage int) int {
+	if stage < len(sh.Modes) {
+		return sh.Modes[stage]
+	}
+	return 0
 }
 
 // the exhaustive sub-space: stages<=2, msgs<=2, faults<=maxFaults with call<=2
@@ -107,6 +115,16 @@ func enumShapes(maxFaults int) []shape {
 			}
 		}
 	}
+	// context block: the outputs of stage 0 carry the context of the consumed message (what the Router's passthrough
+	// and many real handlers do); that context ends as soon as stage 0 acks its input, i.e. while stage 1 may still be
+	// nacking and waiting for redeliveries. Mode 1 = fresh message with that context, mode 2 = the consumed message itself.
+	for mode := 1; mode <= 2; mode++ {
+		for _, fs := range enumFaults(2, 1) {
+			for cfg := 0; cfg < 12; cfg++ {
+				out = append(out, shape{Stages: 2, FanOut: -1, DupStage: -1, Modes: []int{mode, 0}, Msgs: 1 + cfg%2, Cfg: cfg, Faults: fs})
+			}
+		}
+	}
 	enumCache[maxFaults] = out
 	return out
 }
@@ -125,7 +143,8 @@ func init() {
 		Cases: func(tier string) int { return enumCount(tier) + vlib.TierN(tier, 400, 64000) },
 		Rule: "enumerated part: pipelines of 1..2 Router stages connected by GoChannel topics, 1..2 source messages, all 12 GoChannel configs {buffer 0/1/4 x persistent x blocking}, and EVERY placement of up to 1 (quick) / 2 (thorough) faults {handler error, handler panic, publisher error, publisher panic} on call 0..2 of any stage (exhaustive within these bounds: " + fmt.Sprint(len(enumShapes(1))) + " / " + fmt.Sprint(len(enumShapes(2))) + " cases); " +
 			"plus a batch block: 2 stages that both return 2 messages (batch Publish calls overlapping on consecutive topics) x 1..2 messages x 12 configs x every single fault; " +
-			"random part: 1..4 stages, optional fan-out stage (2 outputs) or 1..3 outputs on every stage, optional stage with two handlers on its topic, optional fan-in (two first stages into one topic), 1..8 messages from 1..2 publisher goroutines, up to 12 faults on random calls, yield injection at the router/gochannel hook points. " +
+			"plus a context block: 2 stages where the outputs of stage 0 carry the consumed message's context (fresh message with that context / the consumed message itself) x 12 configs x every single fault; " +
+			"random part: 1..4 stages, per-stage output mode {fresh, fresh with the consumed message's context, passthrough of the consumed message}, optional fan-out stage (2 outputs) or 1..3 outputs on every stage, optional stage with two handlers on its topic, optional fan-in (two first stages into one topic), 1..8 messages from 1..2 publisher goroutines, up to 12 faults on random calls, yield injection at the router/gochannel hook points. " +
 			"Oracle at quiescence: every accepted source message has >=1 arrival per expected lineage at the sink subscription; every arrival's lineage is one the pipeline can produce from an accepted source message and its payload is intact; the consumed message of a stage is still unsettled when the Publish of its output returns nil; a source Publish never hangs; the process does not crash. " +
 			"Non-trivial: >=1 injected fault actually fired. Distinct = (shape, faults fired, hook fingerprint).",
 		Assumptions: []string{
@@ -154,6 +173,15 @@ func genRandom(e *vlib.Env) shape {
 	}
 	if r.Chance(0.3) {
 		s.DupStage = r.Intn(s.Stages)
+	}
+	if r.Chance(0.35) {
+		for i := 0; i < s.Stages; i++ {
+			m := r.Intn(3)
+			if m == 2 && (s.outs(i) != 1 || i == s.DupStage) {
+				m = 1 // passthrough returns exactly the one consumed message and keeps its UUID
+			}
+			s.Modes = append(s.Modes, m)
+		}
 	}
 	if r.Chance(0.3) {
 		s.FanIn = true
@@ -285,6 +313,12 @@ func run(e *vlib.Env) vlib.Result {
 			case "handler-panic":
 				panic("injected handler panic")
 			}
+			if sh.mode(stage) == 2 {
+				w.mu.Lock()
+				w.consumed[in] = in
+				w.mu.Unlock()
+				return []*message.Message{in}, nil
+			}
 			n := sh.outs(stage)
 			var outs []*message.Message
 			for i := 0; i < n; i++ {
@@ -293,6 +327,9 @@ func run(e *vlib.Env) vlib.Result {
 					u += fmt.Sprintf("#%d", i)
 				}
 				o := message.NewMessage(u, in.Payload)
+				if sh.mode(stage) == 1 {
+					o.SetContext(in.Context())
+				}
 				outs = append(outs, o)
 			}
 			w.mu.Lock()
@@ -400,6 +437,9 @@ func run(e *vlib.Env) vlib.Result {
 				tags = []string{first}
 			}
 			var out []string
+			if sh.mode(stage) == 2 {
+				return []string{u}
+			}
 			for _, tg := range tags {
 				b := fmt.Sprintf("%s/s%d%s", u, stage, tg)
 				if n := sh.outs(stage); n >= 2 {
